@@ -542,7 +542,7 @@ func c05R2(p *Prog, r *Report) {
 			var follow func(v ssa.Value, d int)
 			seen := map[ssa.Value]bool{}
 			follow = func(v ssa.Value, d int) {
-				if seen[v] || d > 5 {
+				if seen[v] || d > 9 {
 					return
 				}
 				seen[v] = true
@@ -579,21 +579,30 @@ func c05R2(p *Prog, r *Report) {
 						follow(x, d+1)
 					case *ssa.Call:
 						if c := x.Call.StaticCallee(); c != nil {
+							placed := false
 							for i, a := range x.Call.Args {
 								if a == v && i < len(c.Params) {
-									dest["param:"+strings.ToLower(c.Params[i].Name())] = true
+									pk := "param:" + strings.ToLower(c.Params[i].Name())
+									had := dest[pk]
+									dest[pk] = true
 									// a module helper that builds (part of) the header: where it puts the value
-									if isModuleFn(c) && c.Blocks != nil && d < 6 && !x.Call.IsInvoke() {
+									if isModuleFn(c) && c.Blocks != nil && d < 7 && !x.Call.IsInvoke() {
 										before := len(dest)
 										follow(c.Params[i], d+3)
 										if len(dest) > before {
-											delete(dest, "param:"+strings.ToLower(c.Params[i].Name()))
+											placed = true
+											if !had {
+												delete(dest, pk)
+											}
 										}
 									}
 								}
 							}
-							// value methods (Dims) of the argument: result goes somewhere
-							follow(x, d+1)
+							// value methods (Dims) of the argument: result goes somewhere; a helper that
+							// was seen to place the value in a field has said where it goes
+							if !placed {
+								follow(x, d+1)
+							}
 						}
 					case *ssa.Extract:
 						follow(x, d+1)
@@ -1620,7 +1629,9 @@ func c05R4(p *Prog, r *Report) {
 	r.Fn(FuncName(ph))
 	// writer keys: every "Key:" at a line start of the string constants used in WriteHeader
 	wkeys := map[string]bool{}
-	Instrs(wh, func(in ssa.Instruction) {
+	// (the text may be put together by helpers the writer calls)
+	InstrsDeep(wh, 2, func(di DeepInstr) {
+		in := di.In
 		for _, op := range in.Operands(nil) {
 			if c, ok := (*op).(*ssa.Const); ok && c.Value != nil && c.Value.Kind() == constant.String {
 				for _, line := range strings.Split(constant.StringVal(c.Value), "\n") {
@@ -1633,7 +1644,8 @@ func c05R4(p *Prog, r *Report) {
 	})
 	// reader keys: constant patterns given to the extract helpers / Contains tests
 	var rkeys []string
-	Instrs(ph, func(in ssa.Instruction) {
+	InstrsDeep(ph, 2, func(di DeepInstr) {
+		in := di.In
 		cc := CallOf(in)
 		if cc == nil {
 			return
